@@ -12,6 +12,7 @@ type file struct {
 	id    string
 	child *file
 	path  string
+	link  string // the path the file was loaded under, when path was replaced by its symlink target
 	docs  []*Document
 }
 
@@ -90,7 +91,7 @@ func (p *Parser) loadFile(path string, child *file) (*file, error) {
 func (p *Parser) loadFileAndParents(path string, child *file) ([]*file, error) {
 	// A file that is (transitively) its own parent would recurse forever.
 	for c := child; c != nil; c = c.child {
-		if sameFilePath(c.path, path) {
+		if sameFilePath(c.path, path) || (c.link != "" && sameFilePath(c.link, path)) {
 			return nil, fmt.Errorf("%s: $parent: %w", path, ErrCircularRef)
 		}
 	}
@@ -215,6 +216,7 @@ func (f *file) parentsFromSymlink() ([]string, error) {
 		return nil, nil
 	}
 
+	f.link = f.path
 	f.path = dest
 
 	return f.parentsFromFilename()
